@@ -214,6 +214,11 @@ impl<F: Float, D: Distance<F>, N: NearestNeighbour>
             self.set_core_distance(n, &neighbors, observations);
             if n.core_distance.is_some() {
                 seeds.clear();
+                // The point which starts a new cluster comes first in the ordering (with an
+                // undefined reachability distance), otherwise it would be seeded by itself and
+                // the points it reaches could be listed in front of it
+                processed.insert(n.index);
+                result.orderings.push(n.clone());
                 // Here we get a list of "density reachable" samples that haven't been processed
                 // and sort them by reachability so we can process the closest ones first.
                 self.get_seeds(
